@@ -67,10 +67,23 @@ def find_element_that_meets_mh(stack, metahandler):
     raise IndexError
 
 
+def ordered_stack_types(g: Grammar) -> list[type]:
+    """The symbols the grammar mentions, in an order that does not depend on the process.
+
+    A set of classes (or of refined types, which hash by the address of their metahandler) iterates
+    in an order that changes from one process to the next, and the genome indexes into this
+    collection. Sorting by the textual form alone leaves ties (two fields declared with equal
+    refinements print the same), so the symbols are first collected in declaration order, which
+    the stable sort then keeps between equally-printed ones.
+    """
+    productions = [p for ps in g.alternatives.values() for p in ps]
+    symbols = list(g.alternatives.keys()) + productions + sorted(g.all_nodes, key=str)
+    mentioned = dict.fromkeys(x for t in symbols for x in g.collect_types(t))
+    return sorted(mentioned, key=str)
+
+
 def create_tree_using_stacks(g: Grammar, r: ListWrapper, failures_limit=100):
-    # A set of classes iterates in an order that depends on their addresses, which differ from one
-    # process to the next; the genome indexes into this collection, so fix its order.
-    all_stack_types = sorted(g.get_all_mentioned_symbols(), key=str)
+    all_stack_types = ordered_stack_types(g)
 
     stacks: dict[type, list[Any]] = {k: [] for k in all_stack_types}
 
